@@ -50,19 +50,38 @@ theorem nonceDuplicate_eq (latest : Option Nat) (cur : Nat) :
     simp only [Gen.nonceDuplicate, Option.isNone_some, Option.getD_some, Bool.false_eq_true, ↓reduceIte]
     apply decide_eq_decide.mpr; omega
 
+theorem feeExceedsBalance_leaves :
+    Gen.feeExceedsBalance_leaves = ["tx.Fee : Int", "fee == nil : Bool", "tx.FeePayer : Int", "sessionWrapper.getAccountRecord(feePayer) : Int",
+      "feePayerRecord.consumedBalance : Int", "feePayerRecord.initialBalance : Int"] := rfl
+
+/-- `detectWillFeeExceedBalance` (math/big): the FEE PAYER's consumed balance plus this fee exceeds its initial balance —
+    strictly, on unbounded integers; the record consulted is `getAccountRecord(tx.FeePayer)` (pinned by the leaves) -/
+theorem feeExceedsBalance_eq (consumed fee balance : Nat) (d1 d2 : Int) :
+    decide (consumed + fee > balance) = Gen.feeExceedsBalance fee false d1 d2 consumed balance := by
+  unfold Gen.feeExceedsBalance Gen.cmpInt
+  simp only [Bool.false_eq_true, ↓reduceIte]
+  apply decide_eq_decide.mpr
+  constructor
+  · intro h
+    rw [if_neg (by omega), if_pos (by omega)]; omega
+  · intro h
+    split at h
+    · omega
+    · split at h <;> omega
+
 /-- `classify` written with the generated detectors (so: the model's classification IS the code's sequence of tests) -/
 theorem classify_uses_generated_detectors (s : TxCache.Session) (consumed : Bytes → Nat) (it : TxCache.HItem) :
     TxCache.classify s consumed it =
       (if Gen.initialGap it.latest.isNone it.cur.nonce (s.nonce it.cur.sender) then .dropSender
        else if Gen.middleGap it.latest.isNone it.cur.nonce (it.latest.getD 0 : Nat) then .dropSender
-       else if decide (consumed it.cur.payer + it.cur.fee > s.balance it.cur.payer) then .dropSender
+       else if Gen.feeExceedsBalance it.cur.fee false 0 0 (consumed it.cur.payer) (s.balance it.cur.payer) then .dropSender
        else if Gen.lowerNonce it.cur.nonce (s.nonce it.cur.sender) then .skipTx
        else if s.badGuard it.cur then .skipTx
        else if Gen.nonceDuplicate it.latest.isNone it.cur.nonce (it.latest.getD 0 : Nat) then .skipTx
        else .take) := by
   unfold TxCache.classify
   dsimp only
-  rw [← initialGap_eq, ← middleGap_eq, ← lowerNonce_eq, ← nonceDuplicate_eq]
+  rw [← initialGap_eq, ← middleGap_eq, ← lowerNonce_eq, ← nonceDuplicate_eq, ← feeExceedsBalance_eq]
   rfl
 
 theorem selectionStops_leaves :
